@@ -46,6 +46,7 @@ class Dm14Net:
         self.proceed_calls = []      # dict(command, address, pointer_type, length, object_count, key, sa, access_level, seed, t)
         self.notify_count = 0
         self.respond_results = []    # (t, plan index, returned data or exception)
+        self.respond_rx_marks = []
         self.notify_q = kernel.SimQueue()
         self.plans = []              # server behaviour per notification: dict(action, data, error, edcp, proceed)
         self.plan_i = 0
@@ -62,6 +63,23 @@ class Dm14Net:
         self.proceed_policy = []     # per proceed invocation: True/False (default True)
         self.server_thread = self.sim.spawn(self._server_app, 'server-app')
         self.client_results = []
+        self.sends = []              # (t, 'C'|'S', pdu_format, bytes, result) of every send_pgn the DM14 objects make through their CA
+        for who, ca in (('C', self.cca), ('S', self.sca)):
+            def send_pgn(data_page, pdu_format, pdu_specific, priority, data, *a, _orig=ca.send_pgn, _who=who, **kw):
+                r = _orig(data_page, pdu_format, pdu_specific, priority, data, *a, **kw)
+                self.sends.append((self.sim.now, _who, pdu_format, len(data), r))
+                return r
+            ca.send_pgn = send_pgn
+        self.table = {}              # serve_by_ref: one list object per memory object, handed to respond() every time that object is read
+
+    def _rr(self, entry):
+        self.respond_results.append(entry)
+        self.respond_rx_marks.append(len(self.w.stacks['S'].port.rx_log))      # frames the server had received when respond() returned
+
+    def _data(self, plan):
+        if self.scn.get('serve_by_ref') and plan.get('obj') is not None and plan.get('data'):
+            return self.table.setdefault(repr(plan['obj']), list(plan['data']))
+        return list(plan.get('data') or [])
 
     def _seed(self):
         s = self.seeds[self.seed_i % len(self.seeds)]
@@ -84,10 +102,10 @@ class Dm14Net:
             # a single-threaded serving application: answers a read from inside the notify callback
             self.plan_i += 1
             try:
-                r = self.server.respond(plan.get('proceed', True), list(plan['data']), plan.get('error', 0xFFFFFF), plan.get('edcp', 0xFF), plan.get('max_timeout', 1))
-                self.respond_results.append((self.sim.now, i, None if r is None else bytes(bytearray(r))))
+                r = self.server.respond(plan.get('proceed', True), self._data(plan), plan.get('error', 0xFFFFFF), plan.get('edcp', 0xFF), plan.get('max_timeout', 1))
+                self._rr((self.sim.now, i, None if r is None else bytes(bytearray(r))))
             except Exception as e:      # noqa
-                self.respond_results.append((self.sim.now, i, e))
+                self._rr((self.sim.now, i, e))
             return
         self.notify_q.put(1)
 
@@ -100,14 +118,14 @@ class Dm14Net:
             if plan.get('think_ms'):
                 self.sim.sleep(plan['think_ms'] / 1000.0)
             if plan['action'] == 'ignore':
-                self.respond_results.append((self.sim.now, i, 'ignored'))
+                self._rr((self.sim.now, i, 'ignored'))
                 continue
             try:
-                r = self.server.respond(plan.get('proceed', True), list(plan.get('data') or []), plan.get('error', 0xFFFFFF), plan.get('edcp', 0xFF),
+                r = self.server.respond(plan.get('proceed', True), self._data(plan), plan.get('error', 0xFFFFFF), plan.get('edcp', 0xFF),
                                         plan.get('max_timeout', 1))
-                self.respond_results.append((self.sim.now, i, None if r is None else bytes(bytearray(r))))
+                self._rr((self.sim.now, i, None if r is None else bytes(bytearray(r))))
             except Exception as e:      # noqa
-                self.respond_results.append((self.sim.now, i, e))
+                self._rr((self.sim.now, i, e))
 
     def run_client(self, ops, gap_s=0.3):
         """Run the client operations sequentially in a simulated application thread."""
